@@ -170,8 +170,7 @@ UNSUP = {
     'ct_off': [('un', 'prev'), ('un', 'next'), ('un', 's_prev'), ('un', 's_next'), ('un', 'rise'), ('un', 'fall')],
     'ct_on': [('un', 'prev'), ('un', 'next'), ('un', 's_prev'), ('un', 's_next'), ('un', 'rise'), ('un', 'fall'),
               ('un', 'eventually'), ('un', 'always'), ('bin', 'until'), ('tbin', 'until'), ('tun', 'eventually'), ('tun', 'always')],
-    # after pastify() next/s_next have been rewritten into delays, so they are not listed here
-    'ct_on_past': [('un', 'prev'), ('un', 's_prev'), ('un', 'rise'), ('un', 'fall'),
+    'ct_on_past': [('un', 'prev'), ('un', 's_prev'), ('un', 'rise'), ('un', 'fall'), ('un', 'next'), ('un', 's_next'),
                    ('un', 'eventually'), ('un', 'always'), ('bin', 'until'), ('tbin', 'until')],
 }
 UKINDS = tuple(UNSUP)
